@@ -1,10 +1,10 @@
-\* C04 thorough: <= 5 operations, published and unpublished, anchored in increasing order
+\* C04 thorough: <= 4 operations, published and unpublished, anchored in increasing order
 INIT Init
 NEXT Next
 CONSTANTS
   AlphaSeq <- AlphaThorough
   Coords <- CoordsThorough
-  MaxOps = 5
+  MaxOps = 4
   AllowUnpub = TRUE
   Monotone = TRUE
   AttackerKeys = {8, 9}
